@@ -212,7 +212,7 @@ class Session:
             if p.poll() is None:
                 p.kill(); p.wait()
         tr.join(2); te.join(2)
-        self.stderr = (errbuf[0] if errbuf else "")[-4000:]
+        self.stderr = (errbuf[0] if errbuf else "")[-40000:]
         self.wall_s = time.time() - t0
         if evf:
             try:
@@ -229,7 +229,7 @@ class Session:
         bms = self.n_bm()
         if self.timed_out:
             probs.append(f"process still running after {self.wall:.0f} s (stuck at script step {self.stuck_at})")
-        elif self.rc != 0:
+        elif self.rc != 0 and not (self.rc == 66 and getattr(self, "known_tsan", False)):
             probs.append(f"exit status {self.rc}")
         if self.stuck_at is not None and not self.timed_out:
             probs.append(f"no answer at script step {self.stuck_at}: {self.script[self.stuck_at]}")
